@@ -239,6 +239,6 @@ def shard(ctx: Ctx):
             s, text, _ = draw(gen.documents(strict_features(), sizes))
             return s, text, draw(st.sampled_from(['default', 'default', 'props', 'renderers', 'all']))
 
-        hyp_run(ctx, 'routes', cases(), lambda c: evaluate(c, ctx, tmpdir), 60 if quick else 1200)
+        hyp_run(ctx, 'routes', cases(), lambda c: evaluate(c, ctx, tmpdir), 60 if quick else 600)
     finally:
         shutil.rmtree(tmpdir, ignore_errors=True)
